@@ -399,9 +399,11 @@ class Expression(object):
 
         """
 
-        # If the attribute value is not None, then simply return it.
+        # If self is a leaf whose attribute value is not None, then simply return it.
         # Otherwise, compute it and return it.
-        if self._value is None:
+        # Note the value of a combination is recomputed from the values of its leaves at each call,
+        # so that it always corresponds to the latest solve.
+        if self._value is None or not self._is_leaf:
             # If leaf function value, the PEP would have filled the attribute after solving the problem.
             if self._is_leaf:
                 raise ValueError("The PEP must be solved to evaluate Expressions!")
